@@ -81,9 +81,6 @@ func (g *gen) intExpr(d int) string {
 	ops := []string{"+", "-", "*", "/", "%", "**", "&", "|", "^", "<<", ">>"}
 	op := g.pick(ops)
 	l, rr := g.intExpr(d-1), g.intExpr(d-1)
-	if g.r.Chance(10) {
-		return "~" + l
-	}
 	return "(" + l + " " + op + " " + rr + ")"
 }
 
@@ -144,7 +141,10 @@ func (g *gen) key() string {
 
 func (g *gen) cond() string {
 	cmp := []string{"<", ">", "<=", ">=", "==", "!="}
-	switch g.r.Intn(8) {
+	switch g.r.Intn(9) {
+	case 8:
+		// bitwise not of an Int as a condition (the only place where the checker accepts `~`)
+		return "~" + g.pick(append([]string{"gi"}, g.p.ints...))
 	case 0, 1:
 		return g.intExpr(1) + " " + g.pick(cmp) + " " + g.intExpr(1)
 	case 2:
@@ -260,7 +260,7 @@ func (g *gen) block(ind string) string {
 	return b.String()
 }
 
-// flag: "" | "settime-len" | "mixed-assign" | "float-cond"
+// flag: "" | "settime-len" | "mixed-assign" | "float-cond" | "not-bool"
 func genProgram(r *vlib.Rand, flag string) string {
 	g := &gen{r: r}
 	var b strings.Builder
@@ -297,6 +297,8 @@ func genProgram(r *vlib.Rand, flag string) string {
 		default:
 			b.WriteString("/^M (?P<w>\\S+) (?P<n>\\d+) (?P<x>\\d+\\.\\d+)/ {\n  cm += $n\n  cm += $x\n}\n")
 		}
+	case "not-bool":
+		b.WriteString("/^I (?P<n>\\d+) (?P<m>-?\\d+)/ {\n  ~($n > $m) {\n    c0++\n  }\n}\n")
 	case "float-cond":
 		b.WriteString("/^F (?P<x>\\d+\\.\\d+) (?P<y>-?\\d+\\.\\d+)/ {\n  $x - $x {\n    c0++\n  }\n}\n")
 	}
